@@ -169,6 +169,12 @@ class Value(ABC):
     def is_address_expression(self):
         return self.type == ValueType.ADDRESS_EXPRESSION
 
+    def signed(self):
+        """
+        The integer this value stands for (the int attribute holds the magnitude).
+        """
+        return -self.int if self.negative else self.int
+
     def is_negative(self):
         return self.negative
 
@@ -574,7 +580,7 @@ class SymbolValue(Value):
             return AddressValue(symbol.int)
 
         if symbol.is_numeric():
-            return NumericValue(symbol.int)
+            return NumericValue(symbol.signed())
 
         raise ValueError("[{}] does not have a value".format(self.value))
 
@@ -659,8 +665,8 @@ class ExpressionValue(Value):
             mode = ExplicitAddressingMode.EXTENDED
 
         if self.right.is_numeric() and self.left.is_numeric():
-            left = self.left.int
-            right = self.right.int
+            left = self.left.signed()
+            right = self.right.signed()
 
             if self.operation == "+":
                 result = left + right
@@ -691,7 +697,7 @@ class ExpressionValue(Value):
         if other_value.is_address():
             additional_value = statements[other_value.int].code_pkg.address.int
         elif other_value.is_numeric():
-            additional_value = other_value.int
+            additional_value = other_value.signed()
         else:
             raise ValueTypeError("[{}] unresolved expression".format(self.original_value))
         address = statements[address_index].code_pkg.address.int
